@@ -16,7 +16,7 @@ PID = "C13"
 NX_T = "((%s, %s) : list (string * string * float) * option (list (string * string * float)))"
 BDIR = common.BUILD / PID
 PRE_LANG = """From Coq Require Import List Bool String ZArith PrimFloat.
-From Cheetah Require Import Parse.Lines Parse.LatticeLang Parse.NxTables.
+From Cheetah Require Import Parse.Lines Parse.LatticeLang Parse.LatticeLangFlat Parse.Rpn Parse.NxTables.
 Import ListNotations. Open Scope string_scope."""
 
 # Six small defects of the importers (F18 twice, F40..F43) may be repaired in /repo one by one.  The Coq development keeps the
@@ -158,13 +158,33 @@ def import_text(flavour, root, text, tag="case"):
         return None, "RecursionError"
     except Exception as ex:  # the importer raised: the error channel
         return None, type(ex).__name__ + ": " + str(ex)[:160]
-    return observe_tree(seg), None
+    obs = observe_tree(seg)
+    if "seg" in obs:
+        # second observable: imported.flattened() -- the expansion of the selected beamline as cheetah itself lists it (a sub-line
+        # left among its elements shows as a {seg, ch} entry); an exception is an observation too
+        try:
+            fl = seg.flattened()
+            obs["flat"] = {"seg": None if re.fullmatch(r"unnamed_element_\d+", fl.name) else fl.name, "ch": [observe_tree(c) for c in fl.elements]}
+        except BadObservation:
+            raise
+        except Exception as ex:
+            obs["flat"] = None
+            obs["flat_error"] = type(ex).__name__ + ": " + str(ex)[:160]
+    else:
+        obs["flat"] = dict(obs)             # (a selected name that is an element: nothing to flatten)
+    return obs, None
+
+
+def tree_depth(t):
+    return 1 + max([tree_depth(c) for c in t["ch"]] or [0]) if "seg" in t else 0
 
 
 def coq_case(case, obs):
     fl = "Elegant" if case["flavour"] == "elegant" else "Bmad"
     o = "None" if obs is None else "(Some %s)" % coq_tree(obs)
-    return "((%s, %s, %s, %s) : flavour * string * list stmt * option ctree)" % (fl, coq_string(case["root"]), lg.coq_program(case["prog"]), o)
+    fo = "None" if obs is None or obs.get("flat") is None else "(Some %s)" % coq_tree(obs["flat"])
+    return "((%s, %s, %s, %s, %s) : flavour * string * list stmt * option ctree * option ctree)" % (
+        fl, coq_string(case["root"]), lg.coq_program(case["prog"]), o, fo)
 
 
 # ------------------------------------------------------------------------------------------------ stages
@@ -253,7 +273,10 @@ def program_correspondence(run, n_good, n_bad, extra=()):
     for i in range(n_good + n_bad + len(extra) + len(probes)):
         flavour = "elegant" if i % 2 == 0 else "bmad"
         if i < n_good:
-            case = lg.gen_program(run.rng, flavour, size=run.rng.choice([3, 6, 10]), depth=run.rng.choice([1, 2, 3]), nest=5)
+            # three cases in ten: lines nested at least three deep (a chain of sub-lines used once or twice, the element types that
+            # import as small Segments in the innermost line); Elegant: a third of the binary-node values spelled in RPN
+            case = lg.gen_program(run.rng, flavour, size=run.rng.choice([3, 6, 10]), depth=run.rng.choice([1, 2, 3]), nest=5,
+                                  deep=(i % 10) in (4, 5, 9), rpn=0.35)
             kind = "wellformed"
         elif i < n_good + n_bad:
             case, kind = lg.gen_malformed(run.rng, flavour)
@@ -287,13 +310,15 @@ def program_correspondence(run, n_good, n_bad, extra=()):
         run.count(f"{flavour}_{kind}_" + ("imported" if obs is not None else "raised"))
         if obs is not None:
             run.count("leaves_%d" % min(n_leaves, 20) if n_leaves < 20 else "leaves_20plus")
+            run.count("segment_nesting_depth_%d" % min(tree_depth(obs), 6))
+            run.count("flattened_compared" if obs.get("flat") is not None else "flattened_raised")
             for l in tree_leaves(obs):
                 run.count("class_" + l["cls"])
         for s in case["prog"]:
             run.count("stmt_" + s[0] + ("_wild" if s[0] == "prop" and s[1][0] == "wild" else ""))
         cases.append({"case": case, "kind": kind, "text": text, "observed": obs, "error": err})
         terms.append(coq_case(case, obs))
-    failing = common.run_shards(PID, "prog", pre_lang(), terms, "c13_check_v fx_now", shard=60)
+    failing = common.run_shards(PID, "prog", pre_lang(), terms, "c13_check_flat_v fx_now", shard=60)
     run.cov["traces_validated_against_impl"] += len(cases)
     if cases:
         c = cases[0]
@@ -377,11 +402,98 @@ def define_correspondence(run, n):
     return bad
 
 
+RPN_T = "((%s, %s, %s, %s, %s) : list (string * float) * expr * expr * binop * option float)"
+RPN_COQ_OP = {"add": "OAdd", "sub": "OSub", "mul": "OMul", "div": "ODiv"}
+
+
+def rpn_observe(text, vars_):
+    """fortran_namelist.evaluate_expression on the text in a fresh context holding the named constants and the variables.
+    Returns ("value", float) | ("raised", text) | ("discard", why)."""
+    from cheetah.converters.utils import fortran_namelist as fn
+    ctx = fn.parse_lines([])
+    ctx.update({k: v for k, v in vars_})
+    try:
+        import contextlib
+        import io
+        with contextlib.redirect_stdout(io.StringIO()):
+            v = fn.evaluate_expression(text, ctx)
+    except Exception as ex:
+        return "raised", type(ex).__name__ + ": " + str(ex)[:120]
+    if isinstance(v, bool) or not isinstance(v, (int, float)):
+        return "not_a_number", repr(v)[:120]
+    if isinstance(v, int) and abs(v) > 2 ** 53:
+        return "discard", "integer above 2^53"
+    v = float(v)
+    if math.isnan(v) or math.isinf(v):
+        return "discard", "not finite"
+    return "value", v
+
+
+def no_pow(e):
+    """x^k is python's float pow (libm) in binary64, the model multiplies: equal after the binary32 cast of an imported parameter
+    (where the program-level stage compares them), not bit for bit in binary64 -- this stage stays with + - * / sqrt abs."""
+    if e[0] == "pow":
+        a = no_pow(e[1])
+        return ["mul", a, a] if e[2] == 2 else a
+    return [e[0]] + [no_pow(x) if isinstance(x, list) else x for x in e[1:]]
+
+
+def rpn_term(c, obs):
+    vs = coq_list(["(%s, %s)" % (coq_string(k), lg.flit(v)) for k, v in c["vars"]])
+    o = "(Some %s)" % lg.flit(obs[1]) if obs[0] == "value" else "None"
+    return RPN_T % (vs, lg.coq_expr(c["a"]), lg.coq_expr(c["b"]), RPN_COQ_OP[c["op"]], o)
+
+
+def rpn_correspondence(run, n):
+    """fortran_namelist.evaluate_expression (-> rpn.is_valid_expression / rpn.eval_expression) itself on `A B op` texts against the
+    stack machine of Parse/Rpn.v (eval_rpn on the post-order token list = rpn3 = evalf of the tree, all three compared), exact in
+    binary64.  Operands: literals (negative ones included), variables, named constants and blank-free infix sub-expressions with
+    the non-commutative operators at every depth; a small share divides by an exact zero (the error channel)."""
+    r = run.rng
+    cases, terms = [], []
+    for i in range(n):
+        names = r.sample(["lcell", "k1q", "ang", "x_2", "l0", "bend_r"], r.randrange(0, 4))
+        vars_ = [[nm, lg.num_value(lg.num_text(r)) * r.choice([1, 1, -1])] for nm in names]
+        env = {"vars": names, "attrs": []}
+        op = r.choice(["sub", "sub", "div", "div", "add", "mul"])
+        d = r.choice([0, 0, 1, 2, 3])
+        a = no_pow(lg.gen_expr(r, env, d))
+        if op == "div":
+            b = ["num", r.choice(["0", "0.0"])] if r.random() < 0.04 else lg.gen_nonzero(r, env)
+            if r.random() < 0.3:
+                b = ["neg", b]
+        else:
+            b = no_pow(lg.gen_expr(r, env, r.choice([0, 0, 1, 2, 3])))
+        if r.random() < 0.25:
+            b = ["neg", ["num", lg.num_text(r)]]                       # a negative literal as the right operand:  1.5 -2 /
+        c = {"vars": vars_, "a": a, "b": b, "op": op, "text": lg.rpn_plain(lg.render_rpn([op, a, b]))}
+        obs = rpn_observe(c["text"], vars_)
+        if obs[0] == "discard":
+            run.count("rpn_discarded_" + obs[1].replace(" ", "_"))
+            continue
+        run.add_case(["rpn", vars_, c["text"]], a != b)
+        run.count("rpn_%s_%s" % (op, obs[0]))
+        run.count("rpn_operand_depth_%d" % d)
+        c["observed"] = list(obs)
+        cases.append(c)
+        terms.append(rpn_term(c, obs))
+    failing = common.run_shards(PID, "rpn", PRE_LANG, terms, "rpn_check", shard=250)
+    run.cov["traces_validated_against_impl"] += len(cases)
+    bad = []
+    for i in failing[:3]:
+        c = cases[i]
+        infix = lg.render_expr([c["op"], c["a"], c["b"]])
+        bad.append({"kind": "rpn_value", "text": c["text"], "vars": c["vars"], "a": c["a"], "b": c["b"], "op": c["op"], "observed": c["observed"],
+                    "same_tree_infix": infix, "infix_evaluates_to": list(rpn_observe(infix, c["vars"])),
+                    "relation": "evaluate_expression('A B op') = eval_rpn (rpn_of A ++ rpn_of B ++ [op]) = value of the tree A op B (Parse/Rpn.v), operand order included"})
+    return bad
+
+
 def model_says(case):
     """Text of the model's denotation (for replay files)."""
     fl = "Elegant" if case["flavour"] == "elegant" else "Bmad"
     p = BDIR / "model_says.v"
-    p.write_text(pre_lang() + "\nEval vm_compute in (denote_v fx_now %s %s %s).\n" % (fl, coq_string(case["root"]), lg.coq_program(case["prog"])))
+    p.write_text(pre_lang() + "\nEval vm_compute in (let t := denote_v fx_now %s %s %s in (t, option_map flattened t)).\n" % (fl, coq_string(case["root"]), lg.coq_program(case["prog"])))
     rc, out, err = common.coqc(p, timeout=300)
     return re.sub(r"\s+", " ", out)[:6000] if rc == 0 else "coqc failed: " + err[-400:]
 
@@ -395,7 +507,7 @@ def single_check(case):
     except BadObservation:
         return False, text, None
     try:
-        failing = common.run_vm_cases(PID, "shrink", pre_lang(), [coq_case(case, obs)], "c13_check_v fx_now", timeout=300)
+        failing = common.run_vm_cases(PID, "shrink", pre_lang(), [coq_case(case, obs)], "c13_check_flat_v fx_now", timeout=300)
     except RuntimeError:
         return True, text, obs
     return not failing, text, obs
@@ -498,6 +610,15 @@ def expansion_oracle(case, obs):
     if exp is None or obs is None:
         return None
     leaves = [l["name"] for l in tree_leaves(obs)]
+    if "seg" in obs:
+        # imported.flattened() lists exactly the leaves of the imported tree, in order, and no sub-line is left among them
+        fl = obs.get("flat")
+        if fl is None:
+            return {"kind": "expansion", "flattened_raised": obs.get("flat_error"), "expected_member_order": exp, "observed_leaf_names": leaves}
+        left = [c["seg"] for c in fl["ch"] if "seg" in c]
+        if left or fl["ch"] != tree_leaves(obs) or fl["seg"] != obs["seg"]:
+            return {"kind": "expansion", "expected_member_order": exp, "observed_leaf_names": leaves, "sub_lines_left_in_flattened": left,
+                    "flattened_names": [c.get("name", c.get("seg")) for c in fl["ch"]], "segment_nesting_depth": tree_depth(obs)}
     i = 0
     for w in exp:
         if leaves[i:i + 1] == [w]:
@@ -692,10 +813,14 @@ def main(tier, replay=None):
     thorough = tier == "thorough"
     run.cov["rule"] = ("random lattice PROGRAMS of the supported Elegant/Bmad subset (every element type the converters dispatch on, their understood "
                        "properties, variables, + - * / ^int sqrt abs expressions, named constants, attribute reads, inheritance chains, redefinitions, "
-                       "later and wildcard property assignments, nested/repeated lines up to depth 5 placed anywhere in the file, `use`) rendered in a "
+                       "later and wildcard property assignments, nested/repeated lines up to depth 5 placed anywhere in the file -- three programs in ten "
+                       "with a chain of sub-lines at least three deep, used once or twice, and moni-with-l / collimators (small Segments) innermost --, "
+                       "`use`; Elegant: a third of the binary-node values spelled in RPN `A B op`) rendered in a "
                        "random style (case, spacing, & and , continuations at arbitrary cut points, comments, blank lines), imported with "
-                       "Segment.from_elegant / from_bmad and compared EXACTLY (tree shape, names, classes, every float32 parameter) with vm_compute of "
-                       "the Coq denotation; malformed programs check the error channel; raw line lists vs read_clean_lines / "
+                       "Segment.from_elegant / from_bmad and compared EXACTLY (tree shape, names, classes, every float32 parameter; and "
+                       "imported.flattened() with the model's flattened tree) with vm_compute of the Coq denotation; `A B op` texts (operands: literals, "
+                       "negative literals, variables, constants, blank-free infix sub-expressions of depth <= 3) through evaluate_expression vs the RPN "
+                       "stack machine, exact in binary64; malformed programs check the error channel; raw line lists vs read_clean_lines / "
                        "merge_delimiter_continued_lines; random heads of element definitions vs define_element; random NX tables vs the float32-exact "
                        "layout model.  The regions of the findings F18 (sbend g, kicker l/kick), F40 (white space before the first comma), F41 "
                        "(continuation mark on the last lines), F42, F43 (sbend without e1) are avoided while the finding is known and EXERCISED against "
@@ -733,6 +858,7 @@ def main(tier, replay=None):
         found.append({"kind": "program", "flavour": c["case"]["flavour"], "root": small["root"], "program": small["prog"],
                       "text": text or c["text"], "observed": obs if text else c["observed"], "import_error": c["error"],
                       "model_says": model_says(small), "relation": "imported segment = denotation of the file (Parse/LatticeLang.v denote)"})
+    found[:0] = rpn_correspondence(run, 2500 if thorough else 250)      # (small inputs: reported first)
     nxc, nxf = nx_correspondence(run, 800 if thorough else 150)
     for i in nxf[:3]:
         found.append({"kind": "nx", "rows": nxc[i]["rows"], "observed": nxc[i]["observed"], "import_error": nxc[i]["error"],
@@ -750,7 +876,8 @@ def main(tier, replay=None):
                               "line cleaning / continuation merging code vs Parse/Lines.v: exact differential runs on random line lists",
                               "define_element's match of the head of a definition vs Parse/Lines.v define_header: exact differential runs on random heads",
                               "NX-table import vs Parse/NxTables.v float instance: exact differential runs; centres within 2e-5 m (float32 positions)",
-                              "style / independent-reordering invariance, expansion order and total length on the implementation alone",
+                              "style / independent-reordering invariance, expansion order (also of imported.flattened(): no sub-line left, = leaves of the tree) and total length on the implementation alone",
+                              "rpn.py (is_valid_expression / eval_expression) vs Parse/Rpn.v: exact differential runs on generated `A B op` texts; x^k is left out of that binary64 stage (libm pow vs repeated multiplication agree only after the binary32 cast)",
                               "CODATA constants and numpy degrees() are compared by value on each run"]
 
     for r in regressions:            # a repaired defect that is back: always reported, with its stored input
@@ -776,9 +903,15 @@ def do_replay(run, path):
     if k == "program":
         case = {"flavour": r["flavour"], "root": r["root"], "prog": r["program"]}
         obs, err = import_text(r["flavour"], r["root"], r["text"], tag="replay")
-        failing = common.run_vm_cases(PID, "replay", pre_lang(), [coq_case(case, obs)], "c13_check_v fx_now", timeout=600)
+        failing = common.run_vm_cases(PID, "replay", pre_lang(), [coq_case(case, obs)], "c13_check_flat_v fx_now", timeout=600)
         print("replay:", "property FAILS on this input" if failing else "property holds on this input")
         print(json.dumps({"observed": obs, "error": err})[:3000])
+        return 1 if failing else 0
+    if k == "rpn_value":
+        obs = rpn_observe(r["text"], r["vars"])
+        failing = common.run_vm_cases(PID, "replay", PRE_LANG, [rpn_term(r, obs)], "rpn_check", timeout=600) if obs[0] != "discard" else []
+        print("replay:", "property FAILS on this input" if failing else "property holds on this input")
+        print(json.dumps({"observed": list(obs), "infix": list(rpn_observe(r["same_tree_infix"], r["vars"]))}))
         return 1 if failing else 0
     if k == "regression":
         e = {"replay": r["stored_replay"]}
